@@ -11,7 +11,9 @@ def entries : List (String × Entry) :=
   [("dataJson", .dataJson), ("dataYaml", .dataYaml), ("fileJson", .fileJson), ("fileYaml", .fileYaml),
    ("reader", .reader), ("readAndValidate", .readAndValidate)]
 
-def choices : List (String × SchemaChoice) := [("builtin", .builtin), ("loaded", .builtin), ("none", .none), ("nil", .nil)]
+def choices : List (String × SchemaChoice) := [("builtin", .builtin), ("loaded", .builtin), ("none", .none), ("nil", .nil),
+  -- the same schemas made the active one (schema.Set) and used through the package-level functions
+  ("active-builtin", .builtin), ("active-none", .none), ("active-nil", .nil)]
 
 /-- integer fields within the Go types of specs-go/config.go -/
 def nodeInRange (d : DeviceNode) : Bool :=
@@ -29,7 +31,7 @@ def handle : Handler := fun j => do
     let eng := engine .builtin doc
     let cont := contentsOK doc
     for (cn, c) in choices do
-      let oc ← getObj obs cn
+      let oc ← match obs.getObjVal? cn with | .ok v => pure v | .error _ => continue   -- absent in old replays
       for (en, e) in entries do
         let o ← (← oc.getObjVal? en).getStr?
         if o == "skipped" then continue
